@@ -6,7 +6,7 @@ Local Open Scope Z_scope.
 Lemma reply_records p m m' : In (ESend m') (prov_on_message p m) ->
   pv_confirmed p = true /\ forall r, In r (m_records m') -> r = pv_browse p \/ In r [pv_ptr p; pv_srv p; pv_txt p].
 Proof.
-  unfold prov_on_message. destruct (pv_confirmed p); cbn [negb orb]; [|intros []].
+  rewrite prov_on_message_eq. unfold prov_on_message_old. destruct (pv_confirmed p); cbn [negb orb]; [|intros []].
   destruct (m_response m); [intros []|].
   destruct (fold_left _ (m_queries m) (false, false, false, false)) as [[[sb sp] ss] st].
   destruct (fold_left _ (m_records m) (sp, ss, st)) as [[sp' ss'] st'].
